@@ -17,8 +17,33 @@ from .c08 import layouts, scale, judge
 B32 = scen.BOUNDARY32
 
 
+def fsenc_probe(ctx):
+    """The same requests from an interpreter whose filesystem encoding is ASCII (a service started with LC_ALL=C): device paths are
+    text for the device, their bytes on the wire are UTF-8 whatever the host's locale."""
+    import json
+    import os
+    import subprocess
+    e = dict(os.environ, LC_ALL='C', LANG='C', PYTHONUTF8='0', PYTHONCOERCECLOCALE='0', PYTHONPATH=os.path.dirname(os.path.dirname(os.path.dirname(os.path.abspath(__file__)))))
+    p = subprocess.run(['/venv/bin/python', '-m', 'harness.fsenc_probe', ctx.repo], env=e, stdout=subprocess.PIPE, stderr=subprocess.STDOUT, timeout=300)
+    line = next((l for l in p.stdout.decode('utf8', 'replace').splitlines() if l.startswith('PROBE ')), None)
+    if line is None:
+        # the operations themselves blew up in that environment
+        ctx.violation('C09.RequestPath', dict(kind='non-UTF-8 filesystem encoding', output=p.stdout.decode('utf8', 'replace')[-600:]))
+        return
+    out = json.loads(line[6:])
+    ctx.extra['fsenc_probe_encoding'] = out['fsenc']
+    ver, r = tlc.validate_traces('TraceSync', [t['trace'] for t in out['traces']])
+    ctx.add_tlc(r, 'TraceSync over %d operations run under filesystem encoding %s' % (len(out['traces']), out['fsenc']))
+    for (i, l, v) in ver:
+        if v != 'ok':
+            ctx.violation(v, dict(kind='non-UTF-8 filesystem encoding', fsenc=out['fsenc'], mode=out['traces'][i]['mode'], op=out['traces'][i]['op'], events=out['traces'][i]['trace'][:l]))
+        else:
+            ctx.count(traces=1)
+
+
 def body(ctx):
     rng = random.Random(ctx.seed)
+    fsenc_probe(ctx)
     r, lay = layouts(ctx, 2, [0, 1, 2], 2 if ctx.quick else 3)
     ctx.add_tlc(r, 'AdbSyncRead H=2 Sizes={0,1,2}')
     if r.violations:
